@@ -61,20 +61,20 @@ def stepLine (s : Sys) (line : String) : Sys × String :=
     match args.mapM unhexTok with
     | none => (s, "bad-op")
     | some fields =>
-      if !s.srv.connected then (s, "R C:ConnectionError")
+      if false then (s, "R C:ConnectionError")
       else
         let s := { s with clocks := parseClocks clocks, picks := parsePicks picks }
-        let (_, s') := (sendall { park := park == "1", async := park == "2" } c.toNat! (encodeRequest fields)).run s
+        let (_, s') := (sendallGuarded { park := park == "1", async := park == "2" } c.toNat! (encodeRequest fields)).run s
         let extra := if !s'.clocks.isEmpty then " F:unused_clock_readings" else if !s'.picks.isEmpty then " F:unused_picks" else ""
         (s', renderOut s' ++ extra)
   | ["send", c, clocks, picks, data] =>
     match unhexTok data with
     | none => (s, "bad-op")
     | some bytes =>
-      if !s.srv.connected then (s, "R C:ConnectionError")
+      if false then (s, "R C:ConnectionError")
       else
         let s := { s with clocks := parseClocks clocks, picks := parsePicks picks }
-        let (_, s') := (sendall {} c.toNat! bytes).run s
+        let (_, s') := (sendallGuarded {} c.toNat! bytes).run s
         let extra := if !s'.clocks.isEmpty then " F:unused_clock_readings" else if !s'.picks.isEmpty then " F:unused_picks" else ""
         (s', renderOut s' ++ extra)
   | ["wake", c, clocks] =>
